@@ -44,7 +44,7 @@ type Label struct {
 	I  int    `json:"i,omitempty"`
 	R  int    `json:"r,omitempty"`
 	X  string `json:"x,omitempty"`
-	E  *Exp   `json:"e,omitempty"` // abstract state the specification expects after this step (replay only)
+	E  *Exp   `json:"e,omitempty"`  // abstract state the specification expects after this step (replay only)
 	CE *CExp  `json:"ce,omitempty"` // same, Cron module
 }
 
